@@ -8,7 +8,7 @@ def plan(tier):
                 "cfg": "SuffixIndexMC_C06_n.cfg" if q else "SuffixIndexMC_C06_n_thorough.cfg",
                 "timeout": 3000, "args": ["-coverage", "1"]}],
         "families": [{"fam": "fmd", "trace": "SuffixIndexTraceFmd", "nfiles": 2, "timeout": 3000}],
-        "required_obligations": ["exhaustive_small", "tables_from_reduced_alphabet", "ext_past_empty", "ext_past_empty_absent_symbol", "bwt_run_longer_than_occ_rate", "fmd_over_120_sequences", "palindromic_sequence", "periodic_sequence",
+        "required_obligations": ["exhaustive_small", "serde_roundtrip_fmdindex", "fmd_backward_search_iterator_kinds", "all_smems_min_len_1_to_6", "interval_of_255_256_257_rows_one_preceding_symbol", "tables_from_reduced_alphabet", "ext_past_empty", "ext_past_empty_absent_symbol", "bwt_run_longer_than_occ_rate", "fmd_over_120_sequences", "palindromic_sequence", "periodic_sequence",
                                  "repeated_between_sequences", "with_n", "with_lower_case", "several_sequences",
                                  "occ_rate_gt64_second_checkpoint", "min_len_eq_pattern_len", "ext_spelled_occurring",
                                  "ext_every_symbol"],
@@ -19,7 +19,9 @@ def plan(tier):
                 "over ACGT) and random sets (N, lower case, periodic, palindromic, copies across sequences, total "
                 "length <=60, patterns <=15 from either strand with mutations, l in {1,2,3,|P|}, Occ rates 1,2,3,64,65); reads with homopolymers / tandem repeats / N runs of more than "
                 "two Occ blocks (rates 65, 70, 128) with run pieces + flanks as patterns and 20..60-step extension "
-                "chains by the run symbols; indexes over 125/126/127 short reads",
+                "chains by the run symbols; indexes over 125/126/127 short reads; two overlapping sequences with patterns glued from them and "
+                "all_smems for every l in 1..6; (AC)^255/256/257 and A^256 reads; every third index is asked after a "
+                "serde round trip; backward_search of the FMD index through 4 iterator kinds",
         "bounds": {"mc": "ACGT: 1 sequence <=3 (quick)/4 (thorough) or 2 sequences of total <=2/3, patterns <=3, "
                          "l in {1,2}, Occ by definition and by the Occ machine (k=2,T=1); {A,T,N,a,t}: sequences <=2/3, "
                          "patterns <=2/3",
